@@ -686,6 +686,11 @@ class IRGenerator:
 
                     annotation.set_attributes(annotation_type)
 
+        # annotations of every namespace are complete before any alias or data type
+        # uses them: a spec may apply an annotation of a namespace defined in a later spec
+        for namespace in self.api.namespaces.values():
+            env = self._get_or_create_env(namespace.name)
+
             for alias in namespace.aliases:
                 self._populate_alias_attributes(env, alias)
 
